@@ -126,7 +126,101 @@ def run(p: Project, tier: str) -> Result:
             r.paths += len(ps)
             check_entry(r, s, entry, fi, tok, granted, queue, ps)
         check_token_tags(r, w)
+        check_result_contract(r, w)
+    r.ctx = ''
+    check_errors_reach_the_caller(p, r)
     return r
+
+
+def check_result_contract(r, w):
+    """R8: what put / reserve_*_cancel hand back on success is the constant True, on every completing path.  The callers are written against that:
+    nodes raise when a cancel reports a falsy result (`if not event_cancelled: raise ValueError`), and a blocking Source suspends on whatever a put
+    returns that is a Process - a store that starts handing back its mover process keeps the Source BLOCKED for the whole transit delay."""
+    r.rule('C07.R8', 'put and the two cancellations return the constant True on every completing path', 24)
+    s = w.store
+    for entry in ('put', 'reserve_put_cancel', 'reserve_get_cancel'):
+        ps = w.roots.get(entry)
+        fi = s.methods.get(entry)
+        if not ps or fi is None:
+            continue
+        key = f'{s.ci.label}.{entry}::reports-success-with-True'
+        bad = None
+        n = 0
+        for pa in ps:
+            if pa.raises or pa.status in ('loopcut', 'backedge'):
+                continue
+            n += 1
+            if pa.st.ret != ('const', True):
+                bad = pa
+        if bad is not None:
+            r.fail('C07.R8', key, f'{entry} completes with the result `{bad.st.ret!r:.60}` on one path: ' +
+                   ('a successful cancellation reported as failed makes the node raise ValueError out of run()' if 'cancel' in entry else
+                    'the callers test it for truth and a blocking Source waits on it when it is a process'), src(fi.module), fi.node.lineno, bad.describe())
+        elif n:
+            r.ok('C07.R8', key, f'True on {n} completing path(s)', src(fi.module), fi.node.lineno)
+
+
+PROTOCOL_CALLS = ('put', 'get', 'reserve_put', 'reserve_get', 'reserve_put_cancel', 'reserve_get_cancel', '_trigger_put', '_trigger_get', '_do_put', '_do_get')
+_R7_CANARY = '''
+def wrapper(store, ev, item):
+    ok = False
+    try:
+        ok = store.put(ev, item)
+    finally:
+        return ok
+def wrapper2(store, ev):
+    try:
+        return store.get(ev)
+    except Exception:
+        return None
+'''
+
+
+def swallow_sites(tree):
+    """constructs between a protocol call and its caller that make a raised RuntimeError disappear: (a) `return` / `break` / `continue` inside a
+    `finally` block (the in-flight exception is discarded); (b) a handler for RuntimeError / Exception / BaseException / everything around a protocol
+    call that neither re-raises nor raises something else"""
+    out = []
+    for n in ast.walk(tree):
+        if isinstance(n, ast.Try):
+            for st in n.finalbody:
+                for x in ast.walk(st):
+                    if isinstance(x, (ast.FunctionDef, ast.Lambda)):
+                        break
+                    if isinstance(x, (ast.Return, ast.Break, ast.Continue)):
+                        out.append((x.lineno, 'finally', f'`{type(x).__name__.lower()}` inside `finally` discards an exception in flight'))
+            calls = [c for st in n.body for c in ast.walk(st) if isinstance(c, ast.Call) and isinstance(c.func, ast.Attribute) and c.func.attr in PROTOCOL_CALLS]
+            if not calls:
+                continue
+            for h in n.handlers:
+                names = []
+                t = h.type
+                if t is None:
+                    names = ['<everything>']
+                else:
+                    for e in (t.elts if isinstance(t, ast.Tuple) else [t]):
+                        names.append(ast.unparse(e).split('.')[-1])
+                if not any(x in ('<everything>', 'RuntimeError', 'Exception', 'BaseException') for x in names):
+                    continue
+                if any(isinstance(x, ast.Raise) for st in h.body for x in ast.walk(st)):
+                    continue
+                out.append((h.lineno, 'handler', f'`except {", ".join(names)}` around `{ast.unparse(calls[0].func)}(...)` does not re-raise: a rejected call looks like a '
+                                                 f'successful (or merely falsy) one to the caller'))
+    return out
+
+
+def check_errors_reach_the_caller(p, r):
+    r.rule('C07.R7', 'a RuntimeError raised by the protocol reaches the caller: no return/break/continue in finally, no swallowing handler around a protocol call', 0)
+    n = 0
+    for rel, m in sorted(p.raw().modules.items()):
+        for fn in [x for x in ast.walk(m.tree) if isinstance(x, ast.FunctionDef)]:
+            for line, kind, msg in swallow_sites(fn):
+                n += 1
+                r.fail('C07.R7', f'{rel}::{fn.name}::swallows({kind})', msg + ' (ill-formed put / get / cancel must fail with RuntimeError at every level of the API)',
+                       src(rel), line)
+    r.ok('C07.R7', 'package::R7-scan', f'{len(p.raw().modules)} modules scanned, {n} swallowing construct(s)', '', 0)
+    kinds = {k for _, k, _ in swallow_sites(ast.parse(_R7_CANARY))}
+    r.canaries['C07.R7'] = kinds == {'finally', 'handler'}
 
 
 def check_token_tags(r, w):
